@@ -1,0 +1,17 @@
+//go:build verif
+
+package kafkaproducer
+
+// Verification hooks (build tag "verif" only; add-only).  They build the two producer nodes over a
+// caller-supplied MessageProducer and topic exactly as Setup leaves them, but without creating a
+// librdkafka client and without the events-receiver goroutine.  Nothing here changes existing code.
+
+// NewKafkaProducerV returns a KafkaProducer in the state Setup establishes (producer, topic, stopChan).
+func NewKafkaProducerV(producer MessageProducer, topic string) *KafkaProducer {
+	return &KafkaProducer{producer: producer, topic: topic, stopChan: make(chan bool)}
+}
+
+// NewErrorProducerV returns an ErrorProducer whose embedded KafkaProducer is in the state Setup establishes.
+func NewErrorProducerV(producer MessageProducer, topic string) *ErrorProducer {
+	return &ErrorProducer{KafkaProducer: KafkaProducer{producer: producer, topic: topic, stopChan: make(chan bool)}}
+}
